@@ -48,6 +48,13 @@ Definition env_of (ivals : list (string * Z)) (bvals : list (string * bool)) : e
   {| iv := fun x => lookup ivals (show_ivar x) 0%Z;
      bv := fun b => lookup bvals (show_bvar b) false;
      av := fun _ _ => 0%Z; fv := fun _ => [] |}.
+(* with array and function interpretations (finite graphs, default 0) *)
+Definition env_full (ivals : list (string * Z)) (bvals : list (string * bool))
+           (avals fvals : list (string * list (Z * Z))) : env :=
+  {| iv := fun x => lookup ivals (show_ivar x) 0%Z;
+     bv := fun b => lookup bvals (show_bvar b) false;
+     av := fun a i => fapp (lookup avals (show_arr a) []) i;
+     fv := fun f => lookup fvals (show_fname f) [] |}.
 Inductive confirm := CfNoRun | CfNoClause | CfResult (clause_holds model_admits : bool).
 Definition confirm_clause (spec : pstate -> list (string * form)) (ops : list op)
            (key : string) (e : env) : confirm :=
